@@ -78,12 +78,46 @@ class NDArr:
     """numpy.ndarray with concrete shape and (possibly) symbolic elements.
     Only what the code under contract uses; everything else raises Unsupported."""
 
-    __slots__ = ("data", "shape", "dtype")
+    __slots__ = ("data", "shape", "dtype", "parent")
 
-    def __init__(self, data, shape=None, dtype="f"):
+    def __init__(self, data, shape=None, dtype="f", parent=None):
         self.data = data
         self.shape = tuple(shape) if shape is not None else _shape_of(data)
         self.dtype = dtype
+        # numpy views (basic indexing, iteration over rows, reshape / ravel / transpose, asarray of an array): `data` is a
+        # private copy of the elements, `parent` = (base array, nested list of index tuples into base.data, same nesting as
+        # data).  Element writes go through `poke`, which also writes the base (and its base, ...): a write through a
+        # view is seen by the array it was taken from.  (The other direction -- a later write to the base seen through an
+        # existing view -- is not modelled; a view is stale after its base is written.)
+        self.parent = parent
+
+    def index_paths(self):
+        """nested list, shaped like data, of each element's own index tuple"""
+        def rec(shape, prefix):
+            if not shape:
+                return prefix
+            return [rec(shape[1:], prefix + (i,)) for i in range(shape[0])]
+
+        return rec(self.shape, ())
+
+    def view_from(self, base, paths):
+        """mark self (freshly built from elements of `base`) as a view; `paths` are index tuples into base.data"""
+        if isinstance(paths, NDArr):
+            paths = paths.data
+        self.parent = (base, paths)
+        return self
+
+    def poke(self, path, value):
+        d = self.data
+        for i in path[:-1]:
+            d = d[i]
+        d[path[-1]] = value
+        if self.parent is not None:
+            base, paths = self.parent
+            q = paths
+            for i in path:
+                q = q[i]
+            base.poke(q, value)
 
     def __repr__(self):
         return "NDArr(%s, shape=%s, dtype=%s)" % (self.data, self.shape, self.dtype)
@@ -150,23 +184,27 @@ class NDArr:
             raise TypeError("iteration over a 0-d array")
         if len(self.shape) == 1:
             return list(self.data)
-        return [NDArr(r, self.shape[1:], self.dtype) for r in self.data]
+        return [self.getitem(i) for i in range(self.shape[0])]  # each row is a view
 
     def transpose(self):
         if len(self.shape) == 1:
-            return self.copy()
+            return NDArr(list(self.data), self.shape, self.dtype).view_from(self, self.index_paths())
         if len(self.shape) != 2:
             raise Unsupported("transpose of %d-d array" % len(self.shape))
         n, m = self.shape
-        return NDArr([[self.data[i][j] for i in range(n)] for j in range(m)], (m, n), self.dtype)
+        return NDArr([[self.data[i][j] for i in range(n)] for j in range(m)], (m, n), self.dtype).view_from(
+            self, [[(i, j) for i in range(n)] for j in range(m)])
 
     def getitem(self, idx):
-        """concrete indices / slices only"""
-        if isinstance(idx, tuple):
-            if len(idx) > len(self.shape):
-                raise IndexError("too many indices for array")
-            return _index(self.data, self.shape, list(idx), self.dtype)
-        return _index(self.data, self.shape, [idx], self.dtype)
+        """concrete indices / slices only (basic indexing: an array result is a view)"""
+        if not isinstance(idx, tuple):
+            idx = (idx,)
+        if len(idx) > len(self.shape):
+            raise IndexError("too many indices for array")
+        r = _index(self.data, self.shape, list(idx), self.dtype)
+        if isinstance(r, NDArr) and r.shape and all(r.shape):
+            r.view_from(self, _index(self.index_paths(), self.shape, list(idx), "O"))
+        return r
 
     def setitem(self, idx, value):
         if not isinstance(idx, tuple):
@@ -178,10 +216,7 @@ class NDArr:
                 self.data[_norm(idx[0], self.shape[0])] = list(value.data)
                 return
             raise Unsupported("partial index assignment on ndarray")
-        d = self.data
-        for k, i in enumerate(idx[:-1]):
-            d = d[_norm(i, self.shape[k])]
-        d[_norm(idx[-1], self.shape[-1])] = value
+        self.poke(tuple(_norm(i, self.shape[k]) for k, i in enumerate(idx)), value)
 
 
 def _norm(i, n):
